@@ -250,6 +250,7 @@ func vspecAckType(s message.Type) bool {
 //@   requires message.vdefConnSizes(msg)
 //@   requires len(msg.mtypeflags) == 1 && len(msg.dbuf) <= 268435460
 //@   ensures[C09:will] err == nil ==> vdefWill(s) && s.initted && s.topics != nil
+//@   ensures[C09:rebuilt] err == nil ==> fresh(s.Cmsg) && fresh(arr(s.cbuf)) && arr(s.Cmsg.dbuf) == arr(s.cbuf)
 //@   modifies fields(s), msg.remlen, msg.dirty, heap("GF.clock"), heap("GF.mlockedAt"), heap("GF.encn"), heap("GF.encarr"), heap("GF.encoff"), heap("GF.encAt")
 
 //@ func (*Session).Update
@@ -258,6 +259,7 @@ func vspecAckType(s message.Type) bool {
 //@   requires message.vdefConnSizes(msg)
 //@   requires len(msg.mtypeflags) == 1 && len(msg.dbuf) <= 268435460
 //@   ensures[C09:will] err == nil ==> vdefWill(s)
+//@   ensures[C09:rebuilt] err == nil ==> fresh(s.Cmsg) && fresh(arr(s.cbuf)) && arr(s.Cmsg.dbuf) == arr(s.cbuf)
 //@   modifies s.cbuf, s.Cmsg, s.Will, msg.remlen, msg.dirty, heap("GF.clock"), heap("GF.mlockedAt"), heap("GF.encn"), heap("GF.encarr"), heap("GF.encoff"), heap("GF.encAt")
 
 // ---------------------------------------------------------------- the session store (C10)
